@@ -195,7 +195,10 @@ class SpecLib:
                             done.add(pin(succ))
                             insts.append(succ)
                 for a in insts:
-                    eq = self.instance(name, a)
+                    try:
+                        eq = self.instance(name, a)
+                    except Unsupported:
+                        continue  # a body that only runs natively (e.g. reads a property): stays uninterpreted
                     facts.append(eq)
                     nxt.extend(self._apps([eq], by_decl))
             frontier = nxt
